@@ -17,6 +17,7 @@ fn run_e1(c: &mut Check, section: &str, cases: u64, property: &'static str, also
     let is_known = known_fn(c);
     let threads = c.threads;
     c.shrink_iters = 150;
+    replay_saved_inputs(c, property, also, nt);
     c.section_threads(section, cases, threads, strat, move |case: &Case, _env| {
         let res = run_case(case, TIMEOUT_S);
         outcome_for(property, also, res, &is_known, &nt)
@@ -51,4 +52,42 @@ fn c01(c: &mut Check) {
         }
         (nt, l)
     });
+}
+
+/// Replay the saved inputs of this property: every file under corpus/<ID>/ (regression inputs of
+/// fixed findings must pass; inputs of listed known findings must still show that finding).
+fn replay_saved_inputs(c: &mut Check, property: &'static str, also: &'static [&'static str], nt: fn(&Verdict) -> (bool, Vec<&'static str>)) {
+    if c.replay.is_some() {
+        return;
+    }
+    let is_known = known_fn(c);
+    let dir = format!("{}/corpus/{}", crate::runner::VERIF_DIR, property);
+    let mut files: Vec<std::path::PathBuf> = match std::fs::read_dir(&dir) {
+        Ok(rd) => rd.filter_map(|e| e.ok()).map(|e| e.path()).filter(|p| p.extension().map(|x| x == "json").unwrap_or(false)).collect(),
+        Err(_) => vec![],
+    };
+    files.sort();
+    let known = c.known_entries();
+    for f in files {
+        let txt = std::fs::read_to_string(&f).unwrap();
+        let v: serde_json::Value = match serde_json::from_str(&txt) {
+            Ok(v) => v,
+            Err(_) => continue,
+        };
+        let cv = if v.get("ops").is_some() { v.clone() } else { v["case"].clone() };
+        let Ok(case) = serde_json::from_value::<Case>(cv) else { continue };
+        let rel = format!("corpus/{}/{}", property, f.file_name().unwrap().to_string_lossy());
+        let attempts = known.iter().find(|k| k.replay.as_deref() == Some(rel.as_str())).and_then(|k| k.replay_attempts).unwrap_or(1);
+        let mut last = None;
+        for _ in 0..attempts {
+            let res = run_case(&case, TIMEOUT_S);
+            let out = outcome_for_case(Some(&case), property, also, res, &is_known, &nt);
+            let stop = !matches!(out, Outcome::Pass { .. });
+            last = Some(out);
+            if stop {
+                break;
+            }
+        }
+        c.record_replay(&rel, last.unwrap(), &f.to_string_lossy());
+    }
 }
